@@ -62,6 +62,20 @@ def main():
         r = timed(fn, 3)
         if 'ValueError' not in r.get('exc', ''):
             viol.append(f'{name}(-1) did not raise ValueError: {r}')
+    # 2b. a child that has delivered its result but does not exit yet (a non-daemon helper thread keeps it alive for 6 s): wait(t) stays bounded and truthful
+    w4 = ProcessWorker(T.return_then_linger, args=(6,))
+    time.sleep(1.0)
+    for tmo in (0, 0.3):
+        r = timed(lambda: w4.wait(tmo), 12)
+        obs[f'wait_{tmo}_lingering'] = r
+        if r['hung'] or r.get('dt', 99) > 4 * tmo + 1.0:
+            viol.append(f'wait({tmo}) on a child that has reported but not exited took {r.get("dt")} s (hung={r["hung"]}): not bounded by its timeout')
+        elif r.get('ret') is not False:
+            viol.append(f'wait({tmo}) on a child that is still running returned {r.get("ret")!r}')
+    try:
+        w4.terminate(timeout=1, force=True)
+    except Exception:
+        pass
     # 3. remote: wait(0) on a running worker returns at once with False
     server = spawn_server(('127.0.0.1', 0))
     try:
